@@ -68,37 +68,26 @@ func (self ValueRange) iterNext() (Value, bool) {
 	start := (*self.Start).(ValueInt).Inner
 	end := (*self.End).(ValueInt).Inner
 
-	// TODO: is this OK?
+	// The bound is tested on the value about to be yielded, never on `end + 1` or on the advanced counter: both
+	// overflow for a range that ends at the largest (smallest) integer. A counter which wrapped around lies on the
+	// far side of `start` and ends the iteration.
 
+	old := *self.IterCurrent
+
+	var cond bool
 	if start < end {
-		if self.EndIsInclusive {
-			end++
-		}
-
-		old := *self.IterCurrent
+		cond = old >= start && (old < end || (self.EndIsInclusive && old == end))
 		*self.IterCurrent++
-
-		cond := *self.IterCurrent <= end
-		if !cond {
-			self.iterReset()
-		}
-
-		return *NewValueInt(old), cond
 	} else {
-		if self.EndIsInclusive {
-			end--
-		}
-
-		old := *self.IterCurrent
+		cond = old <= start && (old > end || (self.EndIsInclusive && old == end))
 		*self.IterCurrent--
-
-		cond := *self.IterCurrent >= end
-		if !cond {
-			self.iterReset()
-		}
-
-		return *NewValueInt(old), cond
 	}
+
+	if !cond {
+		self.iterReset()
+	}
+
+	return *NewValueInt(old), cond
 }
 
 func (self ValueRange) iterReset() {
